@@ -850,6 +850,19 @@ package desync
 //@   oncall ReadAt: requires $last == nil
 //@   ensures $last != nil ==> r1 == $last && r0 == 0
 
+//# the sparse mount's read: the kernel is told OK only when the handle's ReadAt succeeded or ran into the end of
+//# the file itself (exactly io.EOF: a store error that merely wraps an EOF - a connection closed by the peer -
+//# is an error); everything else is EIO, and what is handed back is what ReadAt filled
+//@ func (n *sparseIndexFile) Read
+//@   prop C10
+//@   safety none
+//@   ghost@entry $last = nil
+//@   ghost@after:ReadAt $last = $r1
+//# (the handle is one Open made for this file, the kernel asks for a non-negative offset: assumed)
+//@   assume@before:ReadAt wfSparse(f.sf.loader) && held(f.sf.loader.mu) == 0 && off >= 0 && off + len(dest) < 1<<62 && 8*len(f.sf.loader.done) >= len(f.sf.loader.chunks)
+//@   oncall ReadAt: requires $arg1 == off
+//@   ensures r1 == 0 ==> $last == nil || $last == io.EOF
+
 //@ func (l *sparseFileLoader) stateFromReader
 //@   prop C10
 //@   ensures r1 == nil ==> 8*len(r0) >= len(l.chunks) && len(r0) == (len(l.chunks) + 7) / 8
@@ -1584,7 +1597,7 @@ package desync
 //@   oncall IndexStore.GetIndex: requires $arg0 == indexName
 
 //@ func (h HTTPIndexHandler) put
-//@   prop C15 C04
+//@   prop C15 C04 C19
 //@   safety none
 //@   requires $consumed >= 0
 //@   ghost@entry $last = nil
@@ -1594,6 +1607,9 @@ package desync
 //@   oncall IndexFromReader: requires h.writable
 //@   oncall StoreIndex: requires h.writable && $attempts == 1 && $last == nil && $arg0 == indexName && $arg1 == idx
 //@   ensures !h.writable ==> $status == 400
+//# C19: the uploaded index is decoded from the request body as it arrives - the decoder's bound on what it
+//# allocates for an input applies to the upload; nothing is sized by what the request announces about itself
+//@   oncall IndexFromReader: requires @C19 $arg0 == r.Body
 
 // ---------------------------------------------------------------------------- C14: remote transports
 
@@ -1799,6 +1815,32 @@ package desync
 //@   ghost@after:Chtimes $timed = ($r0 == nil)
 //@   ensures @C05 r0 == nil && unixNano(n.MTime) != 0 ==> $timed
 
+//# the tree walker hands tar() entries whose Path is in cleaned form (path.Clean of the walked path): tar() decides
+//# which directory an entry belongs to by comparing path.Dir of it with the directory's path, which only works
+//# on cleaned paths - a root spelled "dir/" or "./dir" would otherwise produce an archive of an empty root
+//@ ghost var $cl string
+//@ ghost var $cleaned bool
+//@ func (fs *LocalFS) Next
+//@   prop C13 C05
+//@   safety none
+//@   ghost@entry $cleaned = false
+//@   ghost@after:Clean $cl = $r0
+//@   ghost@after:Clean $cleaned = true
+//@   oncall Clean: requires $arg0 == entry.path
+//@   assert@returned $ret1 == nil && $ret0 != nil ==> $cleaned && $ret0.Path == $cl
+
+//# mtree output: names are escaped byte by byte (mtree(5): backslash and three octal digits per byte that is not
+//# printable ASCII, is a backslash or a '#'); what is escaped or copied in each step is one byte of the name, so a
+//# multi-byte character becomes one escape per byte and the listing decodes back to the name
+//@ func mtreeFilename
+//@   prop C05
+//@   safety none
+//@   loop 1: invariant true
+//@   assert@loop1.iterend 0 <= c && c <= 255
+//@   oncall WriteByte: requires $arg0 == c && c != 92 && c != 35 && 32 <= c && c <= 126
+//@   oncall Sprintf: requires $arg0 == "\\%03o" && (c == 92 || c == 35 || c < 32 || c > 126)
+//@   oncall Fprintf: requires $arg1 == "\\%03o" && (c == 92 || c == 35 || c < 32 || c > 126)
+
 // ---------------------------------------------------------------------------- C13: well-formed catar
 
 //# bst lays a sorted list out as a complete binary search tree. e is the height: the list is empty, or has between
@@ -1933,6 +1975,19 @@ package desync
 // ---------------------------------------------------------------------------------------------
 // C04: index stores. The local index store writes the encoding into a file that is empty when
 // the first byte is written (created or truncated), so the file holds exactly Index.WriteTo's bytes.
+
+//# C14: an index that is not there is reported by an error for which os.IsNotExist holds - the index server
+//# answers 404 for exactly that (anything else is 400) and the HTTP client turns exactly 404 into NoSuchObject
+//@ ghost var $oerr error
+//@ func (s LocalIndexStore) GetIndex
+//@   prop C14
+//@   safety none
+//@   requires $consumed >= 0
+//@   ghost@entry $oerr = nil
+//@   ghost@after:GetIndexReader $oerr = $r1
+//@   oncall GetIndexReader: requires $arg0 == name
+//@   ensures $oerr != nil ==> e != nil
+//@   ensures $oerr != nil && notExist($oerr) ==> notExist(e)
 
 //@ func (s LocalIndexStore) StoreIndex
 //@   prop C04
@@ -2127,6 +2182,12 @@ package desync
 //@   prop C01
 //@   ensures 0 <= r0 && r0 <= len(chunks)
 //@   loop 1: invariant 0 <= n && n <= $i && $i <= len(chunks)
+//# the section that is returned covers exactly the r0 chunks that were matched (the planner pairs it with an index
+//# segment of r0 chunks, WriteInto refuses any other length), and every one of them is the null chunk
+//@   loop 1: invariant n == $i && forall k int :: 0 <= k && k < n ==> chunks[k].ID == s.id
+//@   ensures r0 > 0 ==> is(r1, *nullChunkSection) && as(r1, *nullChunkSection).from == chunks[0].Start && as(r1, *nullChunkSection).to == chunks[r0-1].Start + chunks[r0-1].Size
+//@   ensures forall k int :: 0 <= k && k < r0 ==> chunks[k].ID == s.id
+//@   ensures r0 == 0 ==> r1 == nil
 
 //@ func (r *SeedSequencer) Next
 //@   prop C01
